@@ -127,6 +127,9 @@ func ExportPrivateKey(keyPath string, passphrase []byte) ([]byte, error) {
 	// Derive decryption key
 	var derivedKey []byte
 	if len(data.Salt) == 0 {
+		if len(passphrase) == 0 {
+			return nil, fmt.Errorf("empty passphrase cannot decrypt a legacy (salt-less) key file")
+		}
 		derivedKey = fallbackDeriveKey(passphrase, 32)
 	} else {
 		derivedKey = deriveKeyArgon2(passphrase, data.Salt, 32)
@@ -144,6 +147,9 @@ func ExportPrivateKey(keyPath string, passphrase []byte) ([]byte, error) {
 	}
 
 	// Decrypt the private key
+	if len(data.Nonce) != gcm.NonceSize() {
+		return nil, fmt.Errorf("invalid key file: nonce has %d bytes, want %d", len(data.Nonce), gcm.NonceSize())
+	}
 	privKeyBytes, err := gcm.Open(nil, data.Nonce, data.PrivKeyEncrypted, nil)
 	if err != nil {
 		return nil, fmt.Errorf("failed to decrypt private key (wrong passphrase): %w", err)
@@ -333,6 +339,9 @@ func (s *FileSystemSigner) loadKeys(passphrase []byte) error {
 	// If there's no salt in the file, fallback to older naive deriveKey (for backward-compatibility)
 	var derivedKey []byte
 	if len(data.Salt) == 0 {
+		if len(passphrase) == 0 {
+			return fmt.Errorf("empty passphrase cannot decrypt a legacy (salt-less) key file")
+		}
 		// fallback to naive approach
 		derivedKey = fallbackDeriveKey(passphrase, 32)
 	} else {
@@ -350,6 +359,9 @@ func (s *FileSystemSigner) loadKeys(passphrase []byte) error {
 	}
 
 	// Decrypt the private key
+	if len(data.Nonce) != gcm.NonceSize() {
+		return fmt.Errorf("invalid key file: nonce has %d bytes, want %d", len(data.Nonce), gcm.NonceSize())
+	}
 	privKeyBytes, err := gcm.Open(nil, data.Nonce, data.PrivKeyEncrypted, nil)
 	if err != nil {
 		return fmt.Errorf("failed to decrypt private key (wrong passphrase?): %w", err)
@@ -365,6 +377,9 @@ func (s *FileSystemSigner) loadKeys(passphrase []byte) error {
 	pubKey, err := crypto.UnmarshalEd25519PublicKey(data.PubKeyBytes)
 	if err != nil {
 		return fmt.Errorf("failed to unmarshal public key: %w", err)
+	}
+	if !privKey.GetPublic().Equals(pubKey) {
+		return fmt.Errorf("invalid key file: public key does not match the private key")
 	}
 
 	// Set the keys
